@@ -237,6 +237,8 @@ Inductive Step (s : st) (t : nat) (th : thread) : st -> Prop :=
     Step s t th (upd_thread s t (goto th (GcCas (hword s) (hnodes s) (clock s))))
 | St_adv : forall d, tpc th = Idle -> cur_op th = Some (OAdv d) ->
     Step s t th (upd_thread (with_clock s (clock s + Z.max 0 d)) t (finish_op th RUnit))
+| St_step : forall d, tpc th = Idle -> cur_op th = Some (OStep d) ->
+    Step s t th (upd_thread (with_woff s (woff s + d)) t (finish_op th RUnit))
 | St_prepare : forall o e, tpc th = Idle -> cur_op th = Some o -> expect_of s o = Some e ->
     table_qualified (tsize (table s (cur s))) e = false ->
     Step s t th (prepare s t th (cur s) (length (tables s)) true e)
@@ -286,6 +288,13 @@ Inductive Step (s : st) (t : nat) (th : thread) : st -> Prop :=
 | St_gc_lose : forall hw hn c1, tpc th = GcCas hw hn c1 ->
     Step s t th (upd_thread s t (finish_op th RUnit)).
 
+(* get_current_timestamp reads a monotonic clock (regenerated clock id): the stamp source is elapsed time, whatever
+   the adversary does to the calendar clock *)
+Lemma cv_clock_is_monotonic : clock_is_monotonic clock_id = true.
+Proof. reflexivity. Qed.
+Lemma tsrc_clock : forall s, tsrc s = clock s.
+Proof. intro s. unfold tsrc. rewrite cv_clock_is_monotonic. reflexivity. Qed.
+
 Lemma step_grow : forall s t th o e, tpc th = Idle -> cur_op th = Some o -> expect_of s o = Some e ->
   Step s t th (grow s t th o e).
 Proof.
@@ -296,7 +305,7 @@ Lemma step_Step : forall s t s', step s t = Some s' ->
   exists th, nth_error (threads s) t = Some th /\ Step s t th s'.
 Proof.
   intros s t s' H. unfold step in H. destruct (nth_error (threads s) t) as [th|] eqn:Eth; [|discriminate].
-  exists th. split; [reflexivity|]. unfold step_thread in H.
+  exists th. split; [reflexivity|]. unfold step_thread in H. rewrite ?tsrc_clock in H.
   destruct (tpc th) eqn:Epc.
   - destruct (cur_op th) as [o|] eqn:Eo; [|discriminate].
     destruct o; cbn [expect_of] in H.
@@ -313,6 +322,7 @@ Proof.
     + injection H as <-. apply step_grow; auto.
     + destruct (expire _ _) eqn:Ee; inversion H; subst; [apply St_gc_begin|apply St_gc_no]; assumption.
     + inversion H; subst. apply St_adv; assumption.
+    + inversion H; subst. apply St_step; assumption.
   - destruct (Nat.eqb_spec (cur s) bt) as [Ec|Ec].
     + inversion H; subst. eapply St_cas_win; eauto.
     + cbv zeta in H. cbn [cur tables with_mem] in H.
@@ -512,6 +522,7 @@ Proof.
   - match goal with |- Inv1 (upd_thread _ _ ?x) /\ _ => eapply inv1_local with (th' := x); [exact IV|exact Hth|reflexivity|reflexivity|reflexivity|reflexivity| |] end; [exact Logic.I|exact Hsn0].
   - match goal with |- Inv1 (upd_thread _ _ ?x) /\ _ => eapply inv1_local with (th' := x); [exact IV|exact Hth|reflexivity|reflexivity|reflexivity|reflexivity| |] end; [exact Logic.I|].
     cbn. intros k taken E. inversion E; subst. exists tc. split; [assumption|apply published_cur; assumption].
+  - match goal with |- Inv1 (upd_thread _ _ ?x) /\ _ => eapply inv1_local with (th' := x); [exact IV|exact Hth|reflexivity|reflexivity|reflexivity|reflexivity| |] end; [exact Logic.I|exact Hsn0].
   - match goal with |- Inv1 (upd_thread _ _ ?x) /\ _ => eapply inv1_local with (th' := x); [exact IV|exact Hth|reflexivity|reflexivity|reflexivity|reflexivity| |] end; [exact Logic.I|exact Hsn0].
   - match goal with |- Inv1 (upd_thread _ _ ?x) /\ _ => eapply inv1_local with (th' := x); [exact IV|exact Hth|reflexivity|reflexivity|reflexivity|reflexivity| |] end; [exact Logic.I|exact Hsn0].
   - match goal with |- Inv1 (upd_thread _ _ ?x) /\ _ => eapply inv1_local with (th' := x); [exact IV|exact Hth|reflexivity|reflexivity|reflexivity|reflexivity| |] end; [exact Logic.I|exact Hsn0].
@@ -1094,6 +1105,8 @@ Proof.
     left. cbn. split; [lia|]. split; [lia|]. split; [apply (i2_list s I2)|]. intro Hs. split; [assumption|]. apply (i2_stamp s I2 Hs).
   - (* time passes *)
     match goal with |- Inv2 (upd_thread _ _ ?x) => loc2 I1 I2 Hext Htime Hth x end; [left; exact Logic.I|exact Hsn0].
+  - (* the calendar clock is stepped *)
+    match goal with |- Inv2 (upd_thread _ _ ?x) => loc2 I1 I2 Hext Htime Hth x end; [left; exact Logic.I|exact Hsn0].
   - (* prepare *)
     destruct (prepare_misc s t th (cur s) (length (tables s)) true e) as (E1 & E2 & E3).
     apply (inv2_local s _ t th (goto th (SlowCas (cur s) (length (tables s)) (tsize (table s (cur s))) e)) I1 I2 Hext Htime Hth).
@@ -1444,6 +1457,8 @@ Proof.
   - eapply inv3_frame with (th' := goto th _); eauto; try reflexivity; try (left; split; reflexivity).
   - eapply inv3_frame with (th' := finish_op th RUnit); eauto; try reflexivity.
     right. eexists. split; [reflexivity|]. split; [reflexivity|]. intros; exact Logic.I.
+  - eapply inv3_frame with (th' := finish_op th RUnit); eauto; try reflexivity.
+    right. eexists. split; [reflexivity|]. split; [reflexivity|]. intros; exact Logic.I.
   - eapply inv3_frame with (th' := goto th _); eauto; try reflexivity; try apply prepare_threads; try (left; split; reflexivity).
   - eapply inv3_frame with (th' := goto th _); eauto; try reflexivity; try (left; split; reflexivity).
   - (* CAS lost, done *)
@@ -1787,6 +1802,7 @@ Proof.
   - match goal with |- Inv4 (upd_thread _ _ ?x) => same4 I1 I4 Hext Hth x end; [rewrite H; reflexivity|reflexivity].
   - match goal with |- Inv4 (upd_thread _ _ ?x) => same4 I1 I4 Hext Hth x end; [rewrite H; reflexivity|reflexivity].
   - match goal with |- Inv4 (upd_thread _ _ ?x) => same4 I1 I4 Hext Hth x end; [rewrite H; reflexivity|reflexivity].
+  - match goal with |- Inv4 (upd_thread _ _ ?x) => same4 I1 I4 Hext Hth x end; [rewrite H; reflexivity|reflexivity].
   - (* prepare, fresh table *)
     set (L := length (tables s)). set (bn := tsize (table s (cur s))).
     destruct (prepare_blocks s t th (cur s) L true e) as (Ec & Ed & Eb). fold bn in Ec, Ed, Eb.
@@ -2010,6 +2026,7 @@ Proof.
   pose proof (i1_pc s I1 _ _ Hth) as Hpc0.
   destruct HS.
   - loc5 I5 Hth (finish_op th (complete s o (cur s))); rewrite H; reflexivity.
+  - match goal with |- Inv5 (upd_thread _ _ ?x) => loc5 I5 Hth x end; rewrite H; reflexivity.
   - match goal with |- Inv5 (upd_thread _ _ ?x) => loc5 I5 Hth x end; rewrite H; reflexivity.
   - match goal with |- Inv5 (upd_thread _ _ ?x) => loc5 I5 Hth x end; rewrite H; reflexivity.
   - match goal with |- Inv5 (upd_thread _ _ ?x) => loc5 I5 Hth x end; rewrite H; reflexivity.
